@@ -107,7 +107,7 @@ def run(ctx, model):
         if a.get("dt") and generic[0] == 0:
             a.pop("dt")
         if a.get("unconnected_send") and not a.get("connected", True) and a.get("route_path") in (False, b""):
-            a["route_path"] = True       # an Unconnected Send without any route is a caller error, not generated
+            a["route_path"] = True       # delivery oracle below needs a route; the route-less wrapper has its own stream
         path, hops = rng.choice(paths)
         ctx.count("mode/%s" % ("connected" if a.get("connected", True) else ("ucs" if a.get("unconnected_send") else "ucmm")))
         ctx.count("data-len-parity/%d" % (len(a.get("request_data", b"")) % 2))
@@ -124,7 +124,65 @@ def run(ctx, model):
             scn, _, _ = tr.gen_base(rng, policy=(True, True, True), generic=generic)
             tr.run_case(ctx, model, lines, pend, "length-sweep", "C14", scn, paths[1][0], False, {}, [b"\x55" * 8], [("open",), ("gm", a)],
                         check=lambda impl, case, a=a, generic=generic: check_delivery(ctx, impl, case, a, generic, paths[1][1]))
-    ctx.extra["exhaustive_subdomains"] = "request data lengths 0..%d x {connected, UCMM, Unconnected Send}" % (ctx.budget(33, 65) - 1)
+    # Unconnected Send with an empty route (route_path False / b"" / []): the wrapper still carries the embedded length
+    # and, for an odd length, the pad byte; nothing follows.  The reference target cannot unwrap it (no route size field),
+    # so the oracle is the wire layout itself, besides the transcript correspondence with the Lean client.
+    for ln in range(0, ctx.budget(12, 40)):
+        for rp in (False, b"", []):
+            a = {"service": 0x0E, "class_code": 0x70, "instance": 7, "request_data": bytes(range(1, ln + 1)), "name": "g",
+                 "connected": False, "unconnected_send": True, "route_path": rp}
+            scn, _, _ = tr.gen_base(rng, policy=(True, True, True), generic=(0, (), b"\x01"))
+
+            def chk(impl, case, a=a):
+                inner = bytes([a["service"]]) + b"\x02\x20\x70\x24\x07" + a["request_data"]
+                want = b"\x52\x02\x20\x06\x24\x01\x0a\x05" + len(inner).to_bytes(2, "little") + inner + (b"\x00" if len(inner) % 2 else b"")
+                rr = [f for f in impl["frames"] if f[:2] == b"\x6f\x00"]
+                if not rr:
+                    ctx.violation("request-not-sent", case, "no SendRRData frame")
+                    return
+                item = rr[-1][24 + 16:]          # interface handle 4, timeout 2, item count 2, null address item 4, type 2, length 2
+                if item != want:
+                    ctx.violation("unconnected-send-wrapper-altered:no-route", dict(case, data_len=len(a["request_data"])),
+                                  "unconnected data item %s, expected %s" % (item.hex(), want.hex()))
+            ctx.count("mode/ucs-no-route")
+            tr.run_case(ctx, model, lines, pend, "ucs-no-route", "C14", scn, paths[0][0], False, {}, [b"\x77" * 8], [("open",), ("gm", a)], check=chk)
+    ctx.extra["exhaustive_subdomains"] = "request data lengths 0..%d x {connected, UCMM, Unconnected Send}; 0..%d x route-less Unconnected Send" % (
+        ctx.budget(33, 65) - 1, ctx.budget(12, 40) - 1)
+    # route_path=True after a full LogixDriver.open(): the driver's configured route — backplane slot 0 for a
+    # ControlLogix-style target, nothing for a Micro800 (open() strips the backplane hop for these processors)
+    import logixgen as lg
+    from props import logix as lx
+    for i in range(ctx.budget(6, 40)):
+        micro = bool(i % 2)
+        p = lg.gen_project(rng, n_templates=1, n_tags=3)
+        p["micro800"] = micro
+        sess = lx.Session(model, p)
+        case = {"driver": "LogixDriver('10.0.0.1') after open()", "micro800": micro, "index": i}
+        if sess.open_error is not None:
+            ctx.violation("open-failed", case, repr(sess.open_error)[:200])
+            sess.close()
+            continue
+        n_before = rng.choice([0, 1, 2])
+        for _ in range(n_before):
+            sess.d.get_plc_info()
+        sess.log()
+        data = bytes(rng.getrandbits(8) for _ in range(rng.choice([0, 1, 4])))
+        sess.d.generic_message(service=0x0E, class_code=0x70, instance=1, attribute=1, request_data=data, connected=False,
+                               unconnected_send=True, route_path=True, name="g")
+        evs = re.findall(r"\(mr F T (\d+) \(([^()]*(?:\([^()]*\)[^()]*)*)\) \(b ?([0-9a-f]*)\) \(b ?([0-9a-f]*)\)\)", sess.log())
+        ctx.case("configured-route", ("cfgroute", micro, n_before, len(data)))
+        ctx.count("mode/ucs-configured-route-%s" % ("micro800" if micro else "logix"))
+        want = b"" if micro else b"\x01\x00"
+        if not evs:
+            ctx.violation("request-not-delivered", case, "no Unconnected Send reached the message router")
+        else:
+            svc, path, d_, route = evs[-1]
+            if bytes.fromhex(route) != want:
+                ctx.violation("request-altered:route", dict(case, plc_info_calls_before=n_before),
+                              "route %s != configured route %s" % (route, want.hex()))
+            if bytes.fromhex(d_) != data or int(svc) != 0x0E:
+                ctx.violation("request-altered:data", case, "service %s data %s" % (svc, d_))
+        sess.close()
     # helpers: PLC name, info, time set/get
     from pycomm3 import LogixDriver
     for i in range(ctx.budget(60, 600)):
